@@ -34,6 +34,16 @@ def prelude(pms, msg):
     crosstalk(pms, msg)
 
 
+def damaged_calls(fn, msg, *args):
+    """the judged decoder itself has met this frame before in damaged form: cut short by 1-5 digits, one digit too long, with a foreign last
+    character.  Whatever it raised or returned then, the intact frame must decode as if nothing had happened."""
+    for bad in (msg[:-1], msg[:-2], msg[:-3], msg[:-4], msg[:-5], msg + "0", msg[:-1] + "Z"):
+        try:
+            fn(bad, *args)
+        except Exception:
+            pass
+
+
 def _h(msg):
     x = 1469598103934665603
     for ch in msg:
